@@ -110,6 +110,14 @@ theorem cellToParent_encId {t S r : Nat} (h : WF t S r) (a : Nat) (ha : a ≤ r)
     rw [hSdiv, ← topOf_decode_anc t r a ht hr0]
     exact serialize_ok _ _ _ a (by omega) hwfa.2.1
 
+theorem ancT_self (t r : Nat) : ancT t r r = t := by unfold ancT; rw [if_neg (by omega)]
+
+theorem ancS_self {S r : Nat} (hS : S < npos r) : ancS S r r = S := by
+  unfold ancS
+  by_cases h2 : r < 2
+  · rw [if_pos h2]; exact (npos_small r S h2 hS).symm
+  · rw [if_neg h2, Nat.sub_self, Nat.pow_zero, Nat.div_one]
+
 theorem cellToParent_world_target (n : Nat) (c : Cell) (h : deserialize n = .ok c) :
     cellToParent n (some (-1)) = .ok 0 := by
   unfold cellToParent; rw [h]; simp [Except.bind]
